@@ -135,7 +135,26 @@ def w_special(job):
                  ('right table without rows', NM_L, EMPTY, ['city'], ['zip']),
                  ('left table without rows', EMPTY, NM_R, ['zip'], ['zip']),
                  ('all right values missing', NM_L, ALLM, ['city'], ['zip'])]
+    FK_L = pd.DataFrame({'cid': [1, 2, 3], 'name': pd.Series(['a b', 'b', 'a'], dtype=object)})
+    FK_R = pd.DataFrame({'oid': [7, 8, 9], 'name': pd.Series(['a b', 'a', 'b c'], dtype=object), 'cid': [3, 3, 1]})
+    shared = ['cid', 'name']            # the very same list object for both sides
     for ep in job['eps']:
+        for nj in (1, 2):
+            sched.CTL.reset()
+            out = run_ep(ep, FK_L, FK_R, nj, ae=True, am=True, lo=shared, ro=shared, score=False, lkey='cid', rkey='oid',
+                         lattr='name', rattr='name', fresh=False)
+            calls += 1
+            header = ['_id', 'l_cid', 'r_oid', 'l_name', 'r_cid', 'r_name'] + (['_sim_score'] if False else [])
+            if ep == 'ftables:Overlap':
+                header = header
+            got = [c for c in out.columns if c != '_sim_score']
+            if got != header or shared != ['cid', 'name']:
+                if len(viol) < MAXV:
+                    viol.append({'key': 'C11|special|%s|shared-list|nj%d' % (ep, nj),
+                                 'what': 'C11: %s with the same list object %r as l_out_attrs and r_out_attrs (left key cid, '
+                                         'right key oid, cid an ordinary right attribute): columns %r, expected %r; list '
+                                         'afterwards %r' % (ep, ['cid', 'name'], list(out.columns), header, shared),
+                                 'detail': {}})
         for (label, L, R, lo, ro) in scenarios:
             for am in (False, True):
                 for score in (True, False):
